@@ -221,7 +221,7 @@ def _centers_dense(X, sample_weight, labels, n_clusters, distances, X_sort_index
 
         for i, cluster_id in enumerate(empty_clusters):
             far_index = far_from_centers[i]
-            new_center = X[far_index] * sample_weight[far_index]
+            new_center = X[far_index]
             centers[cluster_id] = new_center
             weight_in_cluster[cluster_id] = sample_weight[far_index]
 
@@ -229,6 +229,9 @@ def _centers_dense(X, sample_weight, labels, n_clusters, distances, X_sort_index
         # to optimize
         for i in range(n_clusters):
             sub = X[labels == i]
+            if sub.shape[0] == 0:
+                # empty cluster: keeps the relocated center
+                continue
             med = numpy.median(sub, axis=0)
             centers[i, :] = med
     else:
